@@ -23,6 +23,8 @@ type paramInfo struct {
 	asValue bool // pointer passed as its pointee (NonNil)
 	inout   bool // map parameter mutated by the callee: its new value is returned first
 	dropped bool
+	callback bool // the callback parameter of an oracle (Target.Callback)
+	goType  types.Type // oracles: the type the argument is converted to (the static type of the call site for an `any` parameter)
 }
 
 type fnInfo struct {
@@ -34,6 +36,10 @@ type fnInfo struct {
 	resType string // Coq type of the result tuple (without option)
 	fresh   []bool // result i is always a freshly created map / pointer / slice
 	oracle  bool
+	variadic bool // the last parameter collects the remaining arguments (a list)
+	drop    bool
+	cbPage  string // oracle with a callback: the Coq type of one page
+	freshRes bool  // oracle whose results are freshly allocated (Target.FreshResults)
 }
 
 func (fi *fnInfo) inoutCount() int {
@@ -79,6 +85,14 @@ type fn struct {
 	breakK []kont
 	contK  []kont
 
+	// closures: local variables that hold a function literal, and whether it is partial
+	cbRet      []func(e cx) string  // inside the body of a callback literal: what `return e` becomes
+	droppedObj map[types.Object]bool // parameters dropped by DropParams
+	inMsg      int                   // > 0 while translating an error message (its text is not modelled)
+	nonNilErr  map[types.Object]bool // error variables known to be non-nil here
+	closureVar map[types.Object]bool
+	closureOpt map[types.Object]bool
+
 	// lambda-lifted loops
 	localTypes map[string]string // Coq local name -> Coq type (variables, views, continuations)
 	localOrder []string
@@ -119,6 +133,37 @@ func typeArgsKey(ts []types.Type) string {
 	return "[" + strings.Join(s, ",") + "]"
 }
 
+func anyArgsKey(ts []types.Type) string {
+	any := false
+	var s []string
+	for _, t := range ts {
+		if t == nil {
+			s = append(s, "_")
+		} else {
+			any = true
+			s = append(s, types.TypeString(t, nil))
+		}
+	}
+	if !any {
+		return ""
+	}
+	return "{" + strings.Join(s, ",") + "}"
+}
+
+func anyArgsSuffix(ts []types.Type) string {
+	var s []string
+	for _, t := range ts {
+		if t != nil {
+			x := types.TypeString(t, func(p *types.Package) string { return p.Name() })
+			s = append(s, coqIdent(strings.NewReplacer("*", "", "[]", "list_").Replace(x)))
+		}
+	}
+	if len(s) == 0 {
+		return ""
+	}
+	return "_" + strings.Join(s, "_")
+}
+
 func typeArgsSuffix(g *gen, ts []types.Type) string {
 	var s []string
 	for _, t := range ts {
@@ -133,9 +178,9 @@ func typeArgsSuffix(g *gen, ts []types.Type) string {
 
 // funcInstance returns the translation of function obj (origin) instantiated
 // with targs, translating it first when needed.
-func (g *gen) funcInstance(obj *types.Func, targs []types.Type) *fnInfo {
+func (g *gen) funcInstance(obj *types.Func, targs []types.Type, anyArgs ...types.Type) *fnInfo {
 	obj = obj.Origin()
-	key := "func:" + obj.FullName() + typeArgsKey(targs)
+	key := "func:" + obj.FullName() + typeArgsKey(targs) + anyArgsKey(anyArgs)
 	infos := fnInfos[g]
 	if infos == nil {
 		infos = map[string]*fnInfo{}
@@ -170,7 +215,7 @@ func (g *gen) funcInstance(obj *types.Func, targs []types.Type) *fnInfo {
 	} else {
 		label += obj.Name()
 	}
-	label += typeArgsKey(targs)
+	label += typeArgsKey(targs) + anyArgsKey(anyArgs)
 	if t == nil {
 		g.fail("call of %s, which is neither a target, nor an oracle, nor in the GoLib whitelist", label)
 	}
@@ -205,14 +250,15 @@ func (g *gen) funcInstance(obj *types.Func, targs []types.Type) *fnInfo {
 				base += n.Obj().Name() + "_"
 			}
 		}
-		want := base + obj.Name() + typeArgsSuffix(g, targs)
+		want := base + obj.Name() + typeArgsSuffix(g, targs) + anyArgsSuffix(anyArgs)
 		if t.Name != "" {
-			want = t.Name + typeArgsSuffix(g, targs)
+			want = t.Name + typeArgsSuffix(g, targs) + anyArgsSuffix(anyArgs)
 		}
+		fi.drop = t.Drop
 		fi.name = g.claim(key, want)
 		it.name = fi.name
 		if t.Oracle {
-			g.oracleFunc(it, fi, obj, sig, sub, t)
+			g.oracleFunc(it, fi, obj, sig, sub, t, anyArgs)
 			return
 		}
 		fd := g.L.funcs[obj.FullName()]
@@ -235,7 +281,7 @@ func (g *gen) funcInstance(obj *types.Func, targs []types.Type) *fnInfo {
 	return fi
 }
 
-func (g *gen) oracleFunc(it *item, fi *fnInfo, obj *types.Func, sig *types.Signature, sub tsubst, t *Target) {
+func (g *gen) oracleFunc(it *item, fi *fnInfo, obj *types.Func, sig *types.Signature, sub tsubst, t *Target, anyArgs []types.Type) {
 	drop := map[string]bool{}
 	for _, d := range t.DropParams {
 		drop[d] = true
@@ -248,12 +294,57 @@ func (g *gen) oracleFunc(it *item, fi *fnInfo, obj *types.Func, sig *types.Signa
 			isIface = true
 		}
 	}
+	outs := map[string]bool{}
+	for _, o := range t.OutParams {
+		outs[o] = true
+	}
+	var outTypes []string
+	pidx := 0
 	addParam := func(p *types.Var, recv bool) {
 		pi := paramInfo{obj: p, name: p.Name()}
-		if g.kind(p.Type(), sub) == kDropped || drop[p.Name()] || (recv && isIface) {
+		pt := p.Type()
+		if !recv {
+			if pidx < len(anyArgs) && anyArgs[pidx] != nil && g.kind(pt, sub) == kAny {
+				pt = anyArgs[pidx] // the static type of the argument at this call site
+			}
+			pidx++
+		}
+		switch {
+		case t.Callback != "" && p.Name() == t.Callback:
+			csig, ok := resolve(pt, sub).Underlying().(*types.Signature)
+			if !ok || csig.Results().Len() != 1 || g.kind(csig.Results().At(0).Type(), sub) != kError || csig.Variadic() {
+				g.fail("Callback: parameter %s of %s must be a func(..) error", p.Name(), fi.label)
+			}
+			var pts []string
+			for i := 0; i < csig.Params().Len(); i++ {
+				if g.kind(csig.Params().At(i).Type(), sub) == kDropped {
+					continue
+				}
+				pts = append(pts, g.typ(csig.Params().At(i).Type(), sub))
+			}
+			switch len(pts) {
+			case 0:
+				fi.cbPage = "unit"
+			case 1:
+				fi.cbPage = pts[0]
+			default:
+				fi.cbPage = "(" + strings.Join(pts, " * ") + ")"
+			}
+			pi.callback, pi.dropped = true, true
+		case g.kind(pt, sub) == kDropped || drop[p.Name()] || (recv && isIface):
 			pi.dropped = true
-		} else {
-			pi.typ = g.typ(p.Type(), sub)
+		case outs[p.Name()]:
+			ptr, ok := resolve(pt, sub).(*types.Pointer)
+			if !ok {
+				g.fail("OutParams: parameter %s of %s is not a pointer", p.Name(), fi.label)
+			}
+			pi.inout, pi.asValue = true, true
+			pi.typ = g.typ(ptr.Elem(), sub)
+			ptypes = append(ptypes, pi.typ)
+			outTypes = append(outTypes, pi.typ)
+		default:
+			pi.typ = g.typ(pt, sub)
+			pi.goType = pt
 			ptypes = append(ptypes, pi.typ)
 		}
 		fi.params = append(fi.params, pi)
@@ -261,15 +352,38 @@ func (g *gen) oracleFunc(it *item, fi *fnInfo, obj *types.Func, sig *types.Signa
 	if r := sig.Recv(); r != nil {
 		addParam(r, true)
 	}
-	if sig.Variadic() {
-		g.fail("variadic oracle %s", fi.label)
-	}
 	for i := 0; i < sig.Params().Len(); i++ {
 		addParam(sig.Params().At(i), false)
 	}
+	fi.variadic = sig.Variadic()
 	fi.nres = sig.Results().Len()
 	fi.resType = g.tupleType(sig.Results(), sub)
+	if len(outTypes) > 0 {
+		parts := append([]string{}, outTypes...)
+		for i := 0; i < sig.Results().Len(); i++ {
+			parts = append(parts, g.typ(sig.Results().At(i).Type(), sub))
+		}
+		if len(parts) == 1 {
+			fi.resType = parts[0]
+		} else {
+			fi.resType = "(" + strings.Join(parts, " * ") + ")"
+		}
+	}
 	fi.fresh = make([]bool, fi.nres)
+	if t.FreshResults {
+		fi.freshRes = true
+		for i := range fi.fresh {
+			fi.fresh[i] = true
+		}
+		g.note("oracle " + fi.label + " returns freshly allocated objects nobody else refers to (FreshResults)")
+	}
+	if fi.cbPage != "" {
+		if sig.Results().Len() != 1 || g.kind(sig.Results().At(0).Type(), sub) != kError || len(outTypes) > 0 {
+			g.fail("Callback: the oracle %s must return exactly an error", fi.label)
+		}
+		fi.resType = "((list " + fi.cbPage + ") * (option err))"
+		g.note("oracle " + fi.label + " calls its callback sequentially on the pages it produces, stops at the first error the callback returns and returns it, else returns its own final error")
+	}
 	ty := strings.Join(append(ptypes, fi.resType), " -> ")
 	if len(ptypes) == 0 {
 		ty = fi.resType
@@ -293,6 +407,9 @@ func (c *fn) fresh(hint string) string {
 
 func (c *fn) nameOf(o types.Object) string {
 	if n, ok := c.names[o]; ok {
+		if _, known := c.localTypes[n]; !known {
+			c.regVar(n, o)
+		}
 		return n
 	}
 	base := coqIdent(o.Name())
@@ -312,19 +429,23 @@ func (c *fn) nameOf(o types.Object) string {
 		c.nameObj = map[string]types.Object{}
 	}
 	c.nameObj[n] = o
-	func() {
-		defer func() {
-			if r := recover(); r != nil {
-				if _, ok := r.(unsup); !ok {
-					panic(r)
-				}
+	c.regVar(n, o)
+	return n
+}
+
+// regVar records the Coq type of a Go variable (nothing for variables of a
+// dropped or untranslatable type: they never occur in a term).
+func (c *fn) regVar(n string, o types.Object) {
+	defer func() {
+		if r := recover(); r != nil {
+			if _, ok := r.(unsup); !ok {
+				panic(r)
 			}
-		}()
-		if v, ok := o.(*types.Var); ok && c.sig != nil {
-			c.regLocal(n, c.varType(v))
 		}
 	}()
-	return n
+	if v, ok := o.(*types.Var); ok && c.sig != nil {
+		c.regLocal(n, c.varType(v))
+	}
 }
 
 // ---------- pre-analysis ----------
@@ -353,6 +474,11 @@ func (c *fn) rootIdent(e ast.Expr) *ast.Ident {
 		case *ast.IndexExpr:
 			e = x.X
 		case *ast.StarExpr:
+			e = x.X
+		case *ast.UnaryExpr:
+			if x.Op != token.AND {
+				return nil
+			}
 			e = x.X
 		default:
 			return nil
@@ -422,10 +548,33 @@ func (c *fn) calleeInfo(call *ast.CallExpr) (*fnInfo, *types.Func, ast.Expr) {
 			}
 		}
 	}
-	if c.g.byKey[origin.FullName()] == nil {
+	t := c.g.byKey[origin.FullName()]
+	if t == nil {
 		return nil, origin, recv
 	}
-	return c.g.funcInstance(origin, targs), origin, recv
+	var anyArgs []types.Type
+	if t.Oracle {
+		// an oracle is instantiated per static type of the arguments it takes as `any`
+		sig := origin.Type().(*types.Signature)
+		has := false
+		for i := 0; i < sig.Params().Len() && i < len(call.Args); i++ {
+			var at types.Type
+			if c.g.kind(sig.Params().At(i).Type(), nil) == kAny && !(sig.Variadic() && i == sig.Params().Len()-1) {
+				if tt := c.info.TypeOf(call.Args[i]); tt != nil && c.g.kind(tt, c.sub) != kAny && !c.isNilExpr(call.Args[i]) {
+					at = resolve(tt, c.sub)
+					if tv, ok := c.info.Types[call.Args[i]]; ok && tv.Value != nil {
+						at = types.Default(tv.Type)
+					}
+					has = true
+				}
+			}
+			anyArgs = append(anyArgs, at)
+		}
+		if !has {
+			anyArgs = nil
+		}
+	}
+	return c.g.funcInstance(origin, targs, anyArgs...), origin, recv
 }
 
 // isCreation: the expression always yields a freshly created map / pointer / struct.
@@ -449,6 +598,9 @@ func (c *fn) isCreation(e ast.Expr) bool {
 		}
 		fi, _, _ := c.calleeInfo(x)
 		if fi != nil && fi.nres == 1 && fi.inoutCount() == 0 && fi.fresh[0] {
+			return true
+		}
+		if fi != nil && fi.freshRes {
 			return true
 		}
 	}
@@ -479,17 +631,30 @@ func (c *fn) analyse() {
 	}
 	mutatedParams := map[types.Object]bool{}
 	markMut := func(e ast.Expr) {
-		// e is the container expression of an index assignment / delete
-		if id, ok := unparen(e).(*ast.Ident); ok {
-			if o := c.objOf(id); o != nil && params[o] && c.g.kind(o.Type(), c.sub) == kMap {
+		// e is the container expression of an index assignment / delete, or an in/out argument
+		e = unparen(e)
+		if u, ok := e.(*ast.UnaryExpr); ok && u.Op == token.AND {
+			e = unparen(u.X)
+		}
+		if id, ok := e.(*ast.Ident); ok {
+			if o := c.objOf(id); o != nil && params[o] && (c.g.kind(o.Type(), c.sub) == kMap || c.g.kind(o.Type(), c.sub) == kPtr) {
+				mutatedParams[o] = true
+			}
+		}
+	}
+	// a store whose path starts at a pointer parameter (p.f = v, p.f[k] = v, *p = v)
+	markPtrStore := func(lhs ast.Expr) {
+		if _, plain := unparen(lhs).(*ast.Ident); plain {
+			return
+		}
+		if id := c.rootIdent(lhs); id != nil {
+			if o := c.objOf(id); o != nil && params[o] && c.g.kind(o.Type(), c.sub) == kPtr {
 				mutatedParams[o] = true
 			}
 		}
 	}
 	ast.Inspect(c.decl.Body, func(n ast.Node) bool {
 		switch x := n.(type) {
-		case *ast.FuncLit:
-			c.fail(x, "function literals (closures) are not supported")
 		case *ast.AssignStmt:
 			if len(x.Lhs) == len(x.Rhs) {
 				for i := range x.Lhs {
@@ -500,20 +665,36 @@ func (c *fn) analyse() {
 					}
 				}
 			} else {
+				freshCall := false
+				if len(x.Rhs) == 1 {
+					if call, ok := unparen(x.Rhs[0]).(*ast.CallExpr); ok {
+						if tv, isT := c.info.Types[call.Fun]; !(isT && tv.IsType()) {
+							if fi, _, _ := c.calleeInfoSafe(call); fi != nil && fi.freshRes {
+								freshCall = true
+							}
+						}
+					}
+				}
 				for _, l := range x.Lhs {
-					record(l, nil)
+					if freshCall {
+						record(l, x.Rhs[0]) // a fresh result of an oracle
+					} else {
+						record(l, nil)
+					}
 				}
 			}
 			for _, l := range x.Lhs {
 				if ix, ok := unparen(l).(*ast.IndexExpr); ok {
 					markMut(ix.X)
 				}
+				markPtrStore(l)
 			}
 		case *ast.IncDecStmt:
 			record(x.X, nil)
 			if ix, ok := unparen(x.X).(*ast.IndexExpr); ok {
 				markMut(ix.X)
 			}
+			markPtrStore(x.X)
 		case *ast.ValueSpec:
 			for i, nm := range x.Names {
 				if i < len(x.Values) && len(x.Values) == len(x.Names) {
@@ -573,7 +754,7 @@ func (c *fn) analyse() {
 	for o, rhss := range assigns {
 		if params[o] {
 			if mutatedParams[o] {
-				c.fail(c.decl, "parameter %s is a map that is both mutated and reassigned", o.Name())
+				c.fail(c.decl, "parameter %s is both written through and reassigned", o.Name())
 			}
 			continue
 		}
@@ -592,7 +773,18 @@ func (c *fn) analyse() {
 			c.mutable[o] = true
 		case kPtr:
 			c.mutable[o] = true
-			c.asValue[o] = true
+			// held by value only when it cannot be nil (a fresh result of an oracle may be nil)
+			nonNil := true
+			for _, r := range rhss {
+				if call, ok := unparen(r).(*ast.CallExpr); ok {
+					if fi, _, _ := c.calleeInfoSafe(call); fi != nil && fi.freshRes {
+						nonNil = false
+					}
+				}
+			}
+			if nonNil {
+				c.asValue[o] = true
+			}
 		case kStruct:
 			c.mutable[o] = true
 		}
@@ -654,9 +846,6 @@ func (c *fn) analyse() {
 	for _, d := range c.opts.DropParams {
 		drop[d] = true
 	}
-	if c.sig.Variadic() {
-		c.fail(c.decl, "variadic functions are not supported")
-	}
 	for i, p := range ps {
 		pi := paramInfo{obj: p}
 		isRecv := c.sig.Recv() != nil && i == 0
@@ -664,6 +853,10 @@ func (c *fn) analyse() {
 		switch {
 		case k == kDropped || drop[p.Name()]:
 			pi.dropped = true
+			if c.droppedObj == nil {
+				c.droppedObj = map[types.Object]bool{}
+			}
+			c.droppedObj[p] = true
 		case k == kPtr && ((isRecv && !c.opts.NilableRecv) || (!isRecv && c.opts.NonNil)):
 			pi.asValue = true
 			c.asValue[p] = true
@@ -672,11 +865,17 @@ func (c *fn) analyse() {
 		default:
 			pi.typ = c.g.typ(p.Type(), c.sub)
 		}
-		if mutatedParams[p] {
+		if mutatedParams[p] && !pi.dropped {
+			if k == kPtr && !pi.asValue {
+				c.fail(c.decl, "the function writes through pointer parameter %s, which may be nil (declare the target NonNil)", p.Name())
+			}
 			pi.inout = true
 			c.inout = append(c.inout, p)
 			c.isInout[p] = true
 			c.mutable[p] = true
+			if k == kPtr {
+				c.g.note(fmt.Sprintf("%s: pointer parameter %s is written through: its new pointee is returned first (other references to the same object are not modelled)", c.fi.label, p.Name()))
+			}
 		}
 		if !pi.dropped {
 			if p.Name() == "_" || p.Name() == "" {
@@ -697,6 +896,9 @@ func (c *fn) analyse() {
 	}
 	nret := 0
 	ast.Inspect(c.decl.Body, func(n ast.Node) bool {
+		if _, isLit := n.(*ast.FuncLit); isLit {
+			return false // the returns of a closure are not returns of this function
+		}
 		if r, ok := n.(*ast.ReturnStmt); ok {
 			nret++
 			if len(r.Results) != res.Len() {
@@ -720,7 +922,7 @@ func (c *fn) analyse() {
 	}
 	var parts []string
 	for _, p := range c.inout {
-		parts = append(parts, c.g.typ(p.Type(), c.sub))
+		parts = append(parts, c.varType(p))
 	}
 	for i := 0; i < res.Len(); i++ {
 		parts = append(parts, c.g.typ(res.At(i).Type(), c.sub))
@@ -765,6 +967,8 @@ func (c *fn) translate(it *item) {
 		c.breakK, c.contK = nil, nil
 		c.localTypes, c.localOrder, c.nameObj = map[string]string{}, nil, map[string]types.Object{}
 		c.lifted, c.nloops, c.loopDepth = nil, 0, 0
+		c.closureVar, c.closureOpt = map[types.Object]bool{}, map[types.Object]bool{}
+		c.nonNilErr, c.inMsg = map[types.Object]bool{}, 0
 		c.analyse()
 		c.retType = c.fi.resType
 		if partial {
@@ -791,6 +995,13 @@ func (c *fn) translate(it *item) {
 				ps = append(ps, fmt.Sprintf("(%s : %s)", p.name, p.typ))
 			}
 		}
+		var pnames []string
+		for _, p := range c.fi.params {
+			if !p.dropped {
+				pnames = append(pnames, p.name)
+			}
+		}
+		c.checkClosed(c.decl, term, pnames)
 		hdr := fmt.Sprintf("(* %s  [%s] *)\nDefinition %s %s: %s :=\n", cmt(c.fi.label), c.g.L.pos(c.decl.Pos(), c.pkg), c.fi.name, strings.Join(append(ps, ""), " "), c.retType)
 		pre2 := ""
 		for _, l := range c.lifted {
@@ -955,8 +1166,16 @@ func (c *fn) assignedIn(n ast.Node) []types.Object {
 
 // varType is the Coq type of the Coq variable that stands for o.
 func (c *fn) varType(o types.Object) string {
+	if c.closureVar[o] && c.closureOpt[o] {
+		if sig, ok := resolve(o.Type(), c.sub).Underlying().(*types.Signature); ok {
+			t := c.g.sigType(sig, c.sub, nil)
+			res := c.g.tupleType(sig.Results(), c.sub)
+			// the closure may panic: its result lives in the option monad
+			return strings.TrimSuffix(t, res+")") + "(option " + res + "))"
+		}
+	}
 	if c.asValue[o] {
-		return c.g.typ(resolve(o.Type(), c.sub).(*types.Pointer).Elem(), c.sub)
+		return c.g.ptrElemType(o.Type(), c.sub)
 	}
 	return c.g.typ(o.Type(), c.sub)
 }
@@ -1154,7 +1373,8 @@ func (c *fn) checkAliases() {
 				bad := m.pos > a.pos
 				for _, la := range a.loops {
 					for _, lm := range m.loops {
-						if la == lm {
+						// a later iteration of a common loop only matters for a variable that outlives the iteration
+						if la == lm && !(o.Pos() >= la.Pos() && o.Pos() < la.End()) {
 							bad = true
 						}
 					}
@@ -1166,4 +1386,242 @@ func (c *fn) checkAliases() {
 			}
 		}
 	}
+}
+
+
+// ---------- function literals ----------
+
+// assignPositions lists, per local variable, where it is assigned or mutated
+// (declarations excluded).
+func (c *fn) assignPositions() map[types.Object][]token.Pos {
+	out := map[types.Object][]token.Pos{}
+	if c.decl == nil {
+		return out
+	}
+	add := func(e ast.Expr, define bool) {
+		id := c.rootIdent(e)
+		if id == nil || id.Name == "_" {
+			return
+		}
+		if define {
+			if _, isPlain := unparen(e).(*ast.Ident); isPlain && c.info.Defs[id] != nil {
+				return // the declaration itself
+			}
+		}
+		if o := c.objOf(id); o != nil && c.isLocal(o) {
+			out[o] = append(out[o], e.Pos())
+		}
+	}
+	ast.Inspect(c.decl.Body, func(x ast.Node) bool {
+		switch s := x.(type) {
+		case *ast.AssignStmt:
+			for _, l := range s.Lhs {
+				add(l, s.Tok == token.DEFINE)
+			}
+		case *ast.IncDecStmt:
+			add(s.X, false)
+		case *ast.RangeStmt:
+			if s.Tok == token.ASSIGN {
+				if s.Key != nil {
+					add(s.Key, false)
+				}
+				if s.Value != nil {
+					add(s.Value, false)
+				}
+			}
+		case *ast.CallExpr:
+			if id, ok := unparen(s.Fun).(*ast.Ident); ok {
+				if b, ok := c.info.Uses[id].(*types.Builtin); ok && b.Name() == "delete" && len(s.Args) == 2 {
+					add(s.Args[0], false)
+				}
+			}
+			fi, _, recv := c.calleeInfoSafe(s)
+			if fi != nil && fi.inoutCount() > 0 {
+				args := s.Args
+				if recv != nil {
+					args = append([]ast.Expr{recv}, args...)
+				}
+				for i, p := range fi.params {
+					if p.inout && i < len(args) {
+						add(args[i], false)
+					}
+				}
+			}
+		}
+		return true
+	})
+	return out
+}
+
+// captured lists the local variables of the enclosing function a function
+// literal mentions.
+func (c *fn) captured(lit *ast.FuncLit) []types.Object {
+	seen := map[types.Object]bool{}
+	var out []types.Object
+	ast.Inspect(lit.Body, func(n ast.Node) bool {
+		id, ok := n.(*ast.Ident)
+		if !ok {
+			return true
+		}
+		o := c.info.Uses[id]
+		if o == nil || !c.isLocal(o) || seen[o] {
+			return true
+		}
+		if o.Pos() >= lit.Pos() && o.Pos() < lit.End() {
+			return true // its own parameter or local
+		}
+		seen[o] = true
+		out = append(out, o)
+		return true
+	})
+	sort.Slice(out, func(i, j int) bool { return out[i].Pos() < out[j].Pos() })
+	return out
+}
+
+// enclosingLoops returns the loops of the function body that contain node target.
+func (c *fn) enclosingLoops(target ast.Node) []ast.Node {
+	var stack, found []ast.Node
+	ast.Inspect(c.decl.Body, func(n ast.Node) bool {
+		if n == nil {
+			stack = stack[:len(stack)-1]
+			return true
+		}
+		if n == target {
+			for _, s := range stack {
+				switch s.(type) {
+				case *ast.ForStmt, *ast.RangeStmt:
+					found = append(found, s)
+				}
+			}
+		}
+		stack = append(stack, n)
+		return true
+	})
+	return found
+}
+
+// funcLit translates a function literal whose captured variables are never
+// assigned once it exists: a local `fun`. The closure is pure, or lives in the
+// option monad when its body contains a partial operation, independently of
+// the enclosing function.
+func (c *fn) funcLit(lit *ast.FuncLit) (cx, bool) {
+	if c.decl == nil {
+		c.fail(lit, "function literal in a package-level initialiser")
+	}
+	pos := c.assignPositions()
+	loops := c.enclosingLoops(lit)
+	for _, o := range c.captured(lit) {
+		if c.g.kind(o.Type(), c.sub) == kDropped {
+			continue
+		}
+		for _, p := range pos[o] {
+			bad := p > lit.Pos()
+			for _, l := range loops {
+				if p >= l.Pos() && p < l.End() {
+					bad = true
+				}
+			}
+			if bad {
+				c.fail(lit, "the function literal captures %s, which is assigned (%s) after the literal is created", o.Name(), c.g.L.pos(p, c.pkg))
+			}
+		}
+	}
+	sig, ok := c.typeOf(lit).Underlying().(*types.Signature)
+	if !ok || sig.Variadic() {
+		c.fail(lit, "function literal with an unsupported signature")
+	}
+	type saved struct {
+		sig      *types.Signature
+		partial  bool
+		retType  string
+		inout    []*types.Var
+		namedRes []*types.Var
+		breakK   []kont
+		contK    []kont
+		depth    int
+		resType  string
+	}
+	sv := saved{c.sig, c.partial, c.retType, c.inout, c.namedRes, c.breakK, c.contK, c.loopDepth, c.fi.resType}
+	restore := func() {
+		c.sig, c.partial, c.retType, c.inout, c.namedRes, c.breakK, c.contK, c.loopDepth = sv.sig, sv.partial, sv.retType, sv.inout, sv.namedRes, sv.breakK, sv.contK, sv.depth
+		c.fi.resType = sv.resType
+	}
+	defer restore()
+	run := func(partial bool) (text string, again bool) {
+		nl, nlo, nlf, nf := c.nloops, len(c.localOrder), len(c.lifted), c.nfresh
+		views := c.saveViews()
+		usedS := map[string]bool{}
+		for k, v := range c.used {
+			usedS[k] = v
+		}
+		namesS := map[types.Object]string{}
+		for k, v := range c.names {
+			namesS[k] = v
+		}
+		defer func() {
+			if r := recover(); r != nil {
+				if _, ok := r.(needPartial); ok && !partial {
+					c.used, c.names = usedS, namesS
+					for _, x := range c.localOrder[nlo:] {
+						delete(c.localTypes, x)
+					}
+					c.localOrder, c.nloops, c.lifted, c.nfresh, c.views = c.localOrder[:nlo], nl, c.lifted[:nlf], nf, views
+					again = true
+					return
+				}
+				panic(r)
+			}
+		}()
+		c.sig, c.partial, c.inout, c.breakK, c.contK, c.loopDepth = sig, partial, nil, nil, nil, 0
+		c.namedRes = nil
+		res := sig.Results()
+		for i := 0; i < res.Len(); i++ {
+			if n := res.At(i).Name(); n != "" && n != "_" {
+				c.namedRes = append(c.namedRes, res.At(i))
+			}
+		}
+		if len(c.namedRes) != 0 && len(c.namedRes) != res.Len() {
+			c.fail(lit, "partly named results are not supported")
+		}
+		rt := c.g.tupleType(res, c.sub)
+		c.fi.resType = rt
+		c.retType = rt
+		if partial {
+			c.retType = "(option " + rt + ")"
+		}
+		var params []string
+		for i := 0; i < sig.Params().Len(); i++ {
+			p := sig.Params().At(i)
+			if c.g.kind(p.Type(), c.sub) == kDropped {
+				continue
+			}
+			name := c.fresh("arg")
+			if p.Name() != "" && p.Name() != "_" {
+				name = c.nameOf(p)
+			}
+			params = append(params, fmt.Sprintf("(%s : %s)", name, c.g.typ(p.Type(), c.sub)))
+		}
+		if len(params) == 0 {
+			params = []string{"(_ : unit)"}
+		}
+		end := func() string {
+			if res.Len() > 0 && len(c.namedRes) == 0 {
+				c.fail(lit, "control reaches the end of a function literal with results")
+			}
+			return c.returnTerm(lit.Body, nil)
+		}
+		pre := ""
+		for _, r := range c.namedRes {
+			pre += fmt.Sprintf("let %s : %s := %s in ", c.nameOf(r), c.varType(r), c.g.zero(r.Type(), c.sub))
+		}
+		body := c.scoped(func() string { return c.block(lit.Body.List, end) })
+		return "(fun " + strings.Join(params, " ") + " => " + pre + body + ")", false
+	}
+	text, again := run(false)
+	isOpt := false
+	if again {
+		text, _ = run(true)
+		isOpt = true
+	}
+	return cx{s: text}, isOpt
 }
